@@ -107,7 +107,9 @@ func (h *legacyHandler) tickResourcePackQueue() error {
 					Hash:   queued.Hash,
 					Status: DeclinedResponseStatus,
 				}
-				_, err := h.onResourcePackResponseLocked(resBundle, h.shouldDisconnectForForcePack)
+				// The loop itself walks the queue: the declined pack must not tick the
+				// queue again, or the pack the loop stops at would be prompted twice.
+				_, err := h.onResourcePackResponseLocked(resBundle, h.shouldDisconnectForForcePack, false)
 				if err != nil {
 					return err
 				}
@@ -135,7 +137,7 @@ func (h *legacyHandler) onResourcePackResponse(
 ) (bool, error) {
 	h.Lock()
 	defer h.Unlock()
-	return h.onResourcePackResponseLocked(bundle, shouldDisconnectForForcePack)
+	return h.onResourcePackResponseLocked(bundle, shouldDisconnectForForcePack, true)
 }
 
 // onResourcePackResponseLocked handles a response while the handler's lock is held;
@@ -143,6 +145,7 @@ func (h *legacyHandler) onResourcePackResponse(
 func (h *legacyHandler) onResourcePackResponseLocked(
 	bundle *ResponseBundle,
 	shouldDisconnectForForcePack func(e *PlayerResourcePackStatusEvent) bool,
+	tickQueue bool,
 ) (bool, error) {
 	peek := bundle.Status.Intermediate()
 	var queued *Info
@@ -187,7 +190,7 @@ func (h *legacyHandler) onResourcePackResponseLocked(
 	}
 
 	var err error
-	if !peek {
+	if !peek && tickQueue {
 		err = h.tickResourcePackQueue()
 	}
 	handled, err2 := h.HandleResponseResult(queued, bundle)
